@@ -27,6 +27,9 @@ type C16Plan struct {
 	AllCuts   bool   `json:"all_cuts"`   // thorough: try every cut offset of the stream
 	PoolPol   int    `json:"pool_policy"`
 	Kind      string `json:"kind"` // valid | mutated | garbage
+	// AfterHex: a short well-formed stream (frames without payload among them) read through a sound reader after the
+	// faulty read, out of the same pools: what a failed read left behind must not show in the next connection's frames
+	AfterHex string `json:"after_hex,omitempty"`
 }
 
 type faultyReader struct {
@@ -218,6 +221,21 @@ func GenC16(r *RNG) *C16Plan {
 		p.CutErr = r.Intn(2) == 0
 	}
 	p.AllCuts = os.Getenv("VERIF_TIER") == "thorough" && len(b) < 4000
+	if r.Intn(2) == 0 {
+		menu := []string{
+			"000000040100000000",                 // SETTINGS ACK
+			"000000000100000001",                 // DATA, empty, END_STREAM, stream 1
+			"000000000000000003",                 // DATA, empty, stream 3
+			"000000010500000005",                 // HEADERS, empty block, END_STREAM|END_HEADERS, stream 5
+			"0000080600000000000102030405060708", // PING
+			"00000408000000000000000064",         // WINDOW_UPDATE(0, 100)
+			"000000040000000000",                 // SETTINGS, empty
+			"0000050000000000076162636465",       // DATA "abcde", stream 7
+		}
+		for k := 2 + r.Intn(4); k > 0; k-- {
+			p.AfterHex += menu[r.Intn(len(menu))]
+		}
+	}
 	return p
 }
 
@@ -445,6 +463,21 @@ func RunC16(p *C16Plan) *RunResult {
 		if v := c16Once(p, data, c, res); v != nil {
 			res.Viol = v
 			break
+		}
+		if p.AfterHex != "" {
+			after, _ := hex.DecodeString(p.AfterHex)
+			p2 := *p
+			p2.Kind, p2.ReadSizes, p2.CutErr = "aftermath-of-"+p.Kind, nil, false
+			if p2.Max != 0 && p2.Max < 16384 {
+				p2.Max = 16384
+			}
+			if v := c16Once(&p2, after, -1, res); v != nil {
+				v.Sig = "after-failed-read/" + v.Sig
+				v.Detail = fmt.Sprintf("reading a well-formed stream (%s) after the stream cut at %d: %s", p.AfterHex, c, v.Detail)
+				res.Viol = v
+				break
+			}
+			res.Probes["aftermath"]++
 		}
 		run.Pools.CheckFree()
 		if len(run.Pools.Viol) > 0 {
